@@ -22,7 +22,7 @@ RULE = ("three families of histories. oto: up to 3 OneToOne instances built from
         "kwargs/non-dict mapping, .unique), copied (.copy(), OneToOne(x), copy.copy), mutated through either side by "
         "[]=, del, pop, popitem, clear, setdefault, update, |=, update-from-another-instance; every instance's "
         "list(items()), list(inv.items()) and inv.inv identity observed after EVERY step. m2m: same for ManyToMany "
-        "(add/remove/[]=/del/replace/update/update(other)/ManyToMany(other)) with canonical sorted views read "
+        "(add/remove/[]=/del/replace/update/update(other)/ManyToMany(other)/==) with canonical sorted views read "
         "alternately through keys()+[] and keys()+iteritems(). fd: a FrozenDict, every mutator, hash (repeated), "
         "updated/copy/pickle/deepcopy, and a second FrozenDict with the same items inserted in another order (or a "
         "perturbed one). non-trivial = oto: an op through .inv and an eviction-capable write on a non-empty instance; "
@@ -296,6 +296,8 @@ def gen_m2m(rng, tier):
             ninst += 1
         elif r < 0.25:
             ops.append(["updfrom", i, s, rng.randrange(ninst), int(rng.random() < 0.5)])
+        elif r < 0.32:
+            ops.append(["eq", i, s, rng.randrange(ninst), int(rng.random() < 0.5)])
         else:
             name = rng.choice(["add", "add", "add", "remove", "remove", "setitem", "setitem", "delitem", "replace",
                                "replace", "update", "get", "getd", "contains"])
@@ -573,6 +575,12 @@ def run_m2m(case):
                 x = insts[op[1]].inv if op[2] else insts[op[1]]
                 y = insts[op[3]].inv if op[4] else insts[op[3]]
                 assert x.update(y) is None
+            elif op[0] == "eq":
+                x = insts[op[1]].inv if op[2] else insts[op[1]]
+                y = insts[op[3]].inv if op[4] else insts[op[3]]
+                r = (x == y)
+                assert isinstance(r, bool) and (x != y) == (not r) and (y == x) == r
+                res = _res_ok(["bool", r])
             else:
                 x = insts[op[1]].inv if op[2] else insts[op[1]]
                 name = op[3]
@@ -851,6 +859,8 @@ def c_m2m_hop(op):
         return "MNewFrom %s %s" % (cn(op[1]), cb(bool(op[2])))
     if op[0] == "updfrom":
         return "MUpdFrom %s %s %s %s" % (cn(op[1]), cb(bool(op[2])), cn(op[3]), cb(bool(op[4])))
+    if op[0] == "eq":
+        return "MEq %s %s %s %s" % (cn(op[1]), cb(bool(op[2])), cn(op[3]), cb(bool(op[4])))
     return "MOp %s %s (%s)" % (cn(op[1]), cb(bool(op[2])), c_m2m_op(op))
 
 
